@@ -3,6 +3,8 @@ from vlib import h264gen as g
 from vlib.bitgen import hx, nal_src, chunkings, BitWriter
 
 ID = "C04"
+# the property speaks about accepted inputs (values / invariants); which error a rejected input gets is not part of it
+ERROR_IDENTITY_IRRELEVANT = True
 RULE = ("conforming SPS built field by field from a boundary table (every profile class incl. all 13 chroma-info profiles, "
         "chroma formats 0..3, bit depths, 8/12 scaling lists with wrap-around, early termination and use-default, POC types "
         "0/1/2 with 0..255 offsets, frame/field/MBAFF, cropping, every VUI/HRD sub-structure on and off, 1..32 CPBs, ue/se up "
